@@ -9,6 +9,7 @@ C02.f dependence scans are exhaustive
 C02.g different address terms are dependent
 """
 import ast
+import re
 
 from ..core.flow import call_name, calls_in, is_name, reaching_defs
 from ..core.interp import ModuleInterp
@@ -23,12 +24,12 @@ LEVEL_TEXT = ("Decides that two memory/storage accesses whose byte ranges or key
               "by are_dependent (all kinds x all address classes x all orderings of constant offsets, enumerated "
               "completely), that generate_dependences turns every such answer into an ordering edge except in the cases "
               "listed, and that nothing but a transitive reduction stands between those edges and the specification. "
-              "The soundness of load/store forwarding and dead-store removal (simplify_memory) is not decided.")
+              "Load forwarding, dead-store and store-of-load elimination (simplify_memory) are examined by bounded refutation over access sequences of length <= 3 (quick) / 4 (thorough) against a reference memory model; unify_loads_instructions is covered by its window rule only.")
 EXPLANATION = ("Regions: access kinds {mstore, mstore8, mload, keccak256, sstore, sload}^2 (at least one write) x address "
                "class {constants with every difference d in [-70,70], same symbol, different symbols, symbol vs "
                "constant} x keccak length {0,1,2,31,32,33,64, symbolic}. Premise (checked): in the constant branch the "
                "addresses are only compared with each other plus integer literals <= 64, so every ordering is covered.")
-NOT_DECIDED = ("correctness of load/store forwarding and dead-store elimination in simplify_memory (rewrites over run-time lists); "
+NOT_DECIDED = ("correctness of simplify_memory beyond the sequence family and address grid of C02.h; "
                "use of the external non-aliasing analysis (extra_dep_info is empty in this pipeline)")
 EXHAUSTIVE = True
 ASSUMPTIONS = ["extra_dep_info == {} (no external analysis plugged in)", "mem40_pattern is the configuration constant False (checked by C12.a)",
@@ -504,7 +505,56 @@ def rule_g(ctx, out):
     env.pop("u_dict", None)
 
 
+def rule_h(ctx, out):
+    """simplify_memory (load forwarding, dead-store elimination, store-of-load elimination) preserves what the access sequence does:
+    interpreted on every access sequence of a finite family and compared with a reference memory model under a grid of address
+    assignments (sa/core/memrules.py).  Bounded refutation: a defect that needs a longer sequence or another address relation is
+    not found."""
+    from ..core import memrules as mr
+    entry = f"{GO}.simplify_memory"
+    eng = mr.MemEngine(ctx, entry, GO)
+    total = {"sequences": 0, "rewritten": 0}
+    fails = []
+    for loc in ("memory", "storage"):
+        sym = ["s(0)", "s(1)"]
+        if ctx.tier == "thorough":
+            fams = [(4, sym + (["32"] if loc == "memory" else ["1"]), ["s(2)", "7"], False, True),
+                    (3, sym + (["0", "1", "32"] if loc == "memory" else ["0", "1"]), ["s(2)", "7"], True, True)]
+        else:
+            fams = [(3, sym + (["32"] if loc == "memory" else ["1"]), ["s(2)", "7"], False, True),
+                    (2, ["s(0)", "0", "1"], ["s(2)"], True, False)]
+        for params in fams:
+            if ctx.tier == "thorough":
+                st, fl = mr.examine_parallel(ctx, entry, GO, loc, params)
+            else:
+                st, fl = mr.examine(eng, loc, mr.sequences(loc, *params))
+            for k in total:
+                total[k] += st[k]
+            fails += [(loc, s_, r) for s_, r in fl]
+    out.info["memory_simplification"] = dict(total, address_grid=mr.GRID, tier=ctx.tier)
+    if total["rewritten"] < 500:
+        raise AnalysisError(f"simplify_memory rewrote only {total['rewritten']} sequences of the family")
+    fails.sort(key=lambda t: (t[0], t[2]["mismatch"]["kind"], len(t[1]), t[1]))
+    seen = set()
+    for loc, seq, r in fails:
+        rule = re.sub(r"\(.*\)", "", r["rules"][0]).strip() if r["rules"] else "?"
+        rule = "forwarding" if "=" in (r["rules"][0] if r["rules"] else "") else "store-of-load" if "of mload" in rule else "dead-store" if "useless" in rule else rule
+        key = (loc, rule, r["mismatch"]["kind"])
+        if key in seen:
+            out.instances += 1
+            continue
+        seen.add(key)
+        out.bad(f"memory-simplification:{loc}:{rule}:{r['mismatch']['kind']}", f"simplify_memory rewrites [{seq}] into [{r['mismatch'].get('after', '?')}] "
+                f"({'; '.join(r['rules'][:2])}): {r['mismatch'].get('what')}" + (f" when the addresses are {r['mismatch']['addresses']}" if r['mismatch'].get('addresses') else ""),
+                where(ctx.func(entry)), {"sequence": seq, "mismatch": r["mismatch"], "rules": r["rules"]})
+    good = total["rewritten"] - len(fails)
+    out.instances += good
+    out.satisfied += good
+    out.samples.append({"sequences_examined": total["sequences"], "rewritten_and_equivalent": good})
+
+
 RULES = [
+    ("C02.h", "memory/storage simplification preserves the access sequence's effect", 500, rule_h),
     ("C02.g", "different address terms are dependent", 10, rule_g),
     ("C02.e", "unification windows cover every access between the two unified ones", 2, rule_e),
     ("C02.f", "dependence scans are exhaustive", 5, rule_f),
